@@ -1284,3 +1284,44 @@ M('compress-v-norm-with-dimension-advertised', 'C07', 'interrupted-extension-adv
   'reverts fix F51: a B-operator fault in the norm at the end of compress_V leaves k with the new residual and the old norm')
 M('compress-v-dimension-restored-before-the-norm', 'C07', 'interrupted-extension-advertises-no-dimension',
   [('LinAlg/Arnoldi.h', "        m_beta = m_op.norm(m_fac_f);\n        m_k = k;\n", "        m_k = k;\n        m_beta = m_op.norm(m_fac_f);\n")], 'the dimension is advertised again before the risky call')
+# ----------------------------------------------------------------------------- F52 (session 4): sorting rule validated before the iteration
+M('herm-compute-validates-sorting-late', 'C12', 'sorting-rule-validated-before-the-iteration',
+  [('HermEigsBase.h', """        if ((sorting != SortRule::LargestAlge) && (sorting != SortRule::LargestMagn) &&
+            (sorting != SortRule::SmallestAlge) && (sorting != SortRule::SmallestMagn))
+            throw std::invalid_argument("unsupported sorting rule");
+
+        // The m-step Lanczos""", """        // The m-step Lanczos""")], 'reverts fix F52 (symmetric base)')
+M('gen-compute-validates-sorting-after-the-factorization', 'C12', 'sorting-rule-validated-before-the-iteration',
+  [('GenEigsBase.h', """        if ((sorting != SortRule::LargestMagn) && (sorting != SortRule::LargestReal) &&
+            (sorting != SortRule::LargestImag) && (sorting != SortRule::SmallestMagn) &&
+            (sorting != SortRule::SmallestReal) && (sorting != SortRule::SmallestImag))
+            throw std::invalid_argument("unsupported sorting rule");
+
+""", ""),
+   ('GenEigsBase.h', """        retrieve_ritzpair(selection);
+        // Restarting""", """        retrieve_ritzpair(selection);
+        if ((sorting != SortRule::LargestMagn) && (sorting != SortRule::LargestReal) &&
+            (sorting != SortRule::LargestImag) && (sorting != SortRule::SmallestMagn) &&
+            (sorting != SortRule::SmallestReal) && (sorting != SortRule::SmallestImag))
+            throw std::invalid_argument("unsupported sorting rule");
+        // Restarting""")], 'the test runs after the factorization has been extended')
+M('herm-compute-guard-accepts-bothends', 'C12', 'sorting-rule-validated-before-the-iteration',
+  [('HermEigsBase.h', """        if ((sorting != SortRule::LargestAlge) && (sorting != SortRule::LargestMagn) &&
+            (sorting != SortRule::SmallestAlge) && (sorting != SortRule::SmallestMagn))
+            throw std::invalid_argument("unsupported sorting rule");
+
+        // The m-step Lanczos""", """        if ((sorting != SortRule::LargestAlge) && (sorting != SortRule::LargestMagn) &&
+            (sorting != SortRule::SmallestAlge) && (sorting != SortRule::SmallestMagn) && (sorting != SortRule::BothEnds))
+            throw std::invalid_argument("unsupported sorting rule");
+
+        // The m-step Lanczos""")], 'BothEnds passes the early test and is rejected by the final sort after the iteration')
+N('herm-compute-guard-written-as-switch-free-equalities', 'C12',
+  [('HermEigsBase.h', """        if ((sorting != SortRule::LargestAlge) && (sorting != SortRule::LargestMagn) &&
+            (sorting != SortRule::SmallestAlge) && (sorting != SortRule::SmallestMagn))
+            throw std::invalid_argument("unsupported sorting rule");
+
+        // The m-step Lanczos""", """        if (!(sorting == SortRule::LargestAlge || sorting == SortRule::LargestMagn ||
+              sorting == SortRule::SmallestAlge || sorting == SortRule::SmallestMagn))
+            throw std::invalid_argument("unsupported sorting rule");
+
+        // The m-step Lanczos""")], 'the same test written with equalities')
